@@ -87,6 +87,43 @@ def run(prog, rep, tier='quick', config='default'):
     # ------------------------------------------------------------------ R8d: nothing data-dependent is carried from one security to the next
     r8d(prog, rep, loops)
 
+    # ------------------------------------------------------------------ R8f: every affiliate value comes out of the interning table
+    AFF = 'portfolio::model::affiliate::Affiliate'
+    def builds_new(f):
+        # wraps a freshly allocated AffiliateData (Arc::new), as opposed to the derived Clone, which re-wraps the same allocation
+        for b in f.blocks.values():
+            for st in b['stmts']:
+                if st['r']['rv'] == 'agg' and st['r']['kind'].startswith('adt:' + AFF) and not st['r']['kind'].startswith('adt:' + AFF + 'D'):
+                    for o in st['r']['ops']:
+                        if is_place(o) and any(x.short == 'new' and 'Arc' in x.callee for x in mir.provenance(f, o).calls):
+                            return True
+        return False
+    ctors = [f for f in prog.product_fns() if not mir.is_testsupport(f.name) and builds_new(f)]
+    if not ctors:
+        rep.violation('R8f', 'anchor-lost:affiliate-constructor', detail='anchor lost: no function builds an Affiliate value')
+    n_new = 0
+    for ctor in ctors:
+        sites = [c for c in prog.callers.get(ctor.name, []) if not mir.is_testsupport(c.fn.name)]
+        if ctor.kind not in ('Fn', 'AssocFn'):
+            sites = []
+        holders = sites or []
+        # the constructor itself, when it is not a mere wrapper called from elsewhere
+        cands = [(c.fn, c) for c in holders] or [(ctor, None)]
+        for (g, c) in cands:
+            n_new += 1
+            ins = [x for x in g.calls if x.short in ('insert', 'entry', 'or_insert', 'or_insert_with') and
+                   re.search(r'HashMap<std::string::String, ' + re.escape(AFF), g.ty.get(x.arg_local(0), '') or '')]
+            k = '%s|affiliate-built-only-inside-the-interning-table' % g.name
+            if ins:
+                rep.ok('R8f', k, where=(c.where() if c else '%s:%d' % (g.file, g.line)), fn=g.name,
+                       detail='the new Affiliate is stored in the id -> Affiliate table in the same function')
+            else:
+                rep.violation('R8f', k, where=(c.where() if c else '%s:%d' % (g.file, g.line)), fn=g.name,
+                              detail='an Affiliate is built outside the interning table: equality compares id *and* display name while hashing uses the id, '
+                                     'so two values for one id (e.g. "Default" here, "default" interned from another security\'s row) are unequal, and '
+                                     'one security\'s spelling changes how another security\'s rows are grouped')
+    rep.extra['affiliate_construction_sites'] = n_new
+
     # ------------------------------------------------------------------ R8b
     entry = prog.fn('portfolio::bookkeeping::delta_list::txs_to_delta_list')
     if rep.anchor('per-security bookkeeping entry point txs_to_delta_list', entry):
@@ -242,6 +279,16 @@ def r8d(prog, rep, loops):
                 bb, node = reads[0]
                 bad = bad or (fn.where(node), '%s is assigned a value computed from the current security and read inside the loop: '
                               'it carries one security\'s outcome into the processing of the next' % fn.describe_local(l).split(':')[0])
+        # R8e: per-security data from another collection is fetched under the security's key, never by position
+        for c in fn.calls:
+            if c.bb not in body or c.short not in ('get', 'index', 'get_unchecked', 'nth', 'get_mut', 'index_mut') or len(c.args) < 2:
+                continue
+            rty = fn.ty.get(c.arg_local(0), '')
+            ity = fn.ty.get(c.arg_local(1), '') if c.arg_local(1) is not None else 'usize'
+            if re.search(r'(std::vec::Vec<|\[)(\()?.*(%s)' % PAYLOAD, rty) and not re.search(r'HashMap|BTreeMap', rty) and ity == 'usize':
+                bad = bad or (c.where(), 'per-security data is taken from a list by position (%s on %s): the position of a security in one list need '
+                              'not be its position in another (a failed security has no entry), so it can receive another security\'s figures'
+                              % (c.short, rty[:70]))
         if bad:
             rep.violation('R8d', base, where=bad[0], fn=fn.name, detail=bad[1])
         else:
